@@ -344,6 +344,47 @@ Definition python_wf (g : graph) : bool :=
                     | _ => true
                     end) g.
 
+(* ---- the same two predicates, extended to the hashable containers graphtage CAN give back: (frozen)sets.
+   A set as dictionary key is built as a MultiSetNode, whose to_obj() is a hashable HashableCounter.  The
+   boundary is then exactly the two open findings: a tuple or an instance in a hashable position (D18), and,
+   under the strategies that sort the pairs (allow_key_edits), a key that is not a leaf anywhere but in the
+   first pair (D28). *)
+Definition key_positions (o : opts) (g : graph) : bool :=
+  forallb (fun e => match snd e with
+                    | PDict kvs =>
+                        forallb (fun kv => is_scalar_node (node_of g (fst kv)) || is_set_node (node_of g (fst kv))) kvs
+                        && (negb (allow_key_edits o)
+                            || forallb (fun kv => is_scalar_node (node_of g (fst kv))) (tl kvs))
+                    | PSet l => forallb (fun j => is_scalar_node (node_of g j) || is_set_node (node_of g j)) l
+                    | _ => true
+                    end) g.
+
+(* Python's == between the objects a and b of the graph (false when one of them has no finite unfolding) *)
+Definition key_pyeq (g : graph) (a b : Z) : bool :=
+  match unfold (S (length g)) g a, unfold (S (length g)) g b with
+  | Some va, Some vb => val_eqb scalar_pyeq va vb
+  | _, _ => false
+  end.
+
+(* invariants of Python itself, for keys of any hashable type: the keys of one dict are pairwise unequal
+   (frozenset({1}) == frozenset({True})), attribute names are distinct *)
+Definition python_wf_keys (g : graph) : bool :=
+  forallb (fun e => match snd e with
+                    | PDict kvs => pairwise (fun a b => negb (key_pyeq g a b)) (map fst kvs)
+                    | PObj _ fs => pairwise (fun a b => negb (String.eqb a b)) (map fst fs)
+                    | _ => true
+                    end) g.
+
+(* lists and dicts are not hashable in Python: never a dictionary key or a set element *)
+Definition is_unhashable_node (n : pnode) : bool := match n with PList _ | PDict _ => true | _ => false end.
+
+Definition python_hashable (g : graph) : bool :=
+  forallb (fun e => match snd e with
+                    | PDict kvs => forallb (fun kv => negb (is_unhashable_node (node_of g (fst kv)))) kvs
+                    | PSet l => forallb (fun j => negb (is_unhashable_node (node_of g j))) l
+                    | _ => true
+                    end) g.
+
 Definition has_objects (g : graph) : bool := existsb (fun e => is_obj_node (snd e)) g.
 Definition has_bytes (g : graph) : bool := existsb (fun e => is_bytes_node (snd e)) g.
 
